@@ -278,3 +278,45 @@ Example C14_symlink_target_ex : exists i o,
   mk (STR "data/two.txt") (RRoot Builddir) None None = Some o /\
   symlink_target Posix i o = Some (STR "../data2/two.txt").
 Proof. do 2 eexists. vm_compute. repeat split. Qed.
+
+From BFG Require Import Graph.LinkLangs Graph.LinkLangsProofs.
+
+(* ---- languages (Graph/LinkLangs.v): what a library file says about its languages decides the link driver of every
+   consumer.  An archive stands for the languages of ALL its own sources and of everything it forwards, in whatever
+   order the script lists them (ArLinker.output_file hands on step.input_langs); through a chain of archives the
+   language reaches the final link step, whose driver (Link.__find_linker over CcLinker.can_link) is then one that is
+   allowed to link C++ - never the C driver. ---- *)
+Theorem C14_archive_langs_complete : forall own libs x,
+  In x (archive_langs own libs) <-> In x own \/ exists l, In l libs /\ In x l.
+Proof. exact archive_langs_complete. Qed.
+Print Assumptions C14_archive_langs_complete.
+
+Theorem C14_archive_langs_order_free : forall own own' libs libs',
+  (forall x, In x own <-> In x own') -> (forall l, In l libs <-> In l libs') ->
+  forall x, In x (archive_langs own libs) <-> In x (archive_langs own' libs').
+Proof. exact archive_langs_order_free. Qed.
+Print Assumptions C14_archive_langs_order_free.
+
+Theorem C14_langs_forwarded : forall ownA libsA ownB libsB x,
+  In (archive_langs ownA libsA) libsB -> In x (archive_langs ownA libsA) -> In x (input_langs ownB libsB).
+Proof. exact langs_forwarded. Qed.
+Print Assumptions C14_langs_forwarded.
+
+Theorem C14_driver_links_all : forall langs d,
+  find_linker langs = Some d -> In d langs /\ forall l, In l langs -> known l = true -> allowed d l = true.
+Proof. exact driver_links_all. Qed.
+Print Assumptions C14_driver_links_all.
+
+Theorem C14_cxx_member_cxx_driver : forall own libs d,
+  (In l_cxx own \/ exists l, In l libs /\ In l_cxx l) -> binary_lang own libs = Some d ->
+  allowed d l_cxx = true /\ d <> l_c.
+Proof. exact cxx_member_cxx_driver. Qed.
+Print Assumptions C14_cxx_member_cxx_driver.
+
+(* non-vacuity: a C-only program over a C-only archive that forwards an archive whose sources are C first, then C++ *)
+Example C14_langs_ex :
+  archive_langs [l_c; l_cxx] [] = [l_c; l_cxx] /\
+  archive_langs [l_c] [archive_langs [l_c; l_cxx] []] = [l_c; l_cxx] /\
+  binary_lang [l_c] [archive_langs [l_c] [archive_langs [l_c; l_cxx] []]; archive_langs [l_c; l_cxx] []] = Some l_cxx /\
+  binary_lang [l_c] [[l_c]] = Some l_c.
+Proof. vm_compute. repeat split. Qed.
